@@ -83,6 +83,22 @@ def gen_case(seed):
                     gsteps.append({'name': 'g1', 'cls': 'FStep', 'vars': avars,
                                    'flow': [['g0']], 'reads': ['g0'], 'noemit': []})
             g['gen'] = {'at': r.rint(0, 3), 'key': 'gen', 'steps': gsteps}
+    # watchers: steps that depend on a structural step look at the compartments
+    actors_ = [sp['name'] for sp in allsteps if sp.get('kill') or sp.get('gen')]
+    for sp in allsteps:
+        if sp['flow'] is not None and not (sp.get('kill') or sp.get('gen')) and len(sp['path']) == 1 \
+                and any(a_ in sp['reads'] for a_ in actors_) and r.chance(80):
+            sp['watch'] = True
+    if actors_ and r.chance(50):
+        # make sure some step depends on the structural step and watches
+        cands_ = [sp for sp in steps if len(sp['path']) == 1 and not (sp.get('kill') or sp.get('gen'))
+                  and sp['name'] > actors_[0] and actors_[0] in [x['name'] for x in steps]]
+        if cands_:
+            w_ = r.pick(cands_)
+            if actors_[0] not in w_['reads'] and specs_root(steps, actors_[0]):
+                w_['reads'] = list(w_['reads']) + [actors_[0]]
+                w_['flow'] = list(w_['flow']) + [[actors_[0]]]
+            w_['watch'] = True
     for sp in allsteps:
         sp['noemit'] = case['procs'][0].get('noemit') or []
         for gs in (sp.get('gen') or {}).get('steps', []):
@@ -95,6 +111,10 @@ def gen_case(seed):
     # shorter driver: phases dominate cost
     case['ops'] = case['ops'][:4]
     return case
+
+
+def specs_root(steps, name):
+    return any(sp['name'] == name and len(sp['path']) == 1 for sp in steps)
 
 
 def kernel_fix_ops(case):
@@ -294,6 +314,15 @@ def check_c05(case, run, stats=None):
                                          'step %s sees %r for its dependency %s, whose update of this phase is %r' % (
                                              name, vt.get(d), d, phase['tokens'][d]), seq))
                             return out
+            if sp.get('watch') and ev.get('snap') is not None:
+                seen_w = sorted(((ev.get('view') or {}).get('world') or {}).keys())
+                real_w = sorted((ev['snap'].get('world') or {}).keys())
+                if seen_w != real_w:
+                    out.append(V('C05', 'C05.dependency-effects-not-visible', 'structural',
+                                 'step %s runs after the steps it depends on, yet sees compartments %r while the '
+                                 'hierarchy holds %r' % (name, seen_w, real_w), seq))
+                    return out
+                probe('watcher-checked')
             g = phase['gen'].get(name)
             snap = ev.get('snap')
             if g is not None and snap is not None:
